@@ -33,12 +33,14 @@ class HistoryRun:
         self.committed = {}       # id -> list of {path: digest} per committed version (as staged at commit time)
         self.alg = {}             # id -> digest algorithm
         self.shapes = {}          # targeted generator shapes -> how often produced
+        self.queue = []           # remaining operations of a multi-step targeted shape
+        self.next_reserved = hist.N_COMMON      # next never-used reserved content
         # every other history starts from a populated object (names that clash as file/directory across trees,
         # nested directories, duplicate content) so that the rare shapes have something to work on
         self.preamble = []
         if rng.random() < 0.5:
             o = self.ids[0]
-            nC = len(hist.CONTENTS)
+            nC = hist.N_COMMON
             self.preamble = [{"op": "new", "id": o}] + [
                 {"op": "cp_ext", "id": o, "files": [[os.path.basename(nm), rng.randrange(nC)]], "dst": nm, "recursive": False}
                 for nm in ("a.txt", "dir/c.txt", "dir/sub/e.txt", "dir2/sub", "dir2/a.txt", "n")] + [
@@ -102,6 +104,9 @@ class HistoryRun:
             self.shapes["purge / reset-all of a never-existing id related to an existing object's root"] = \
                 self.shapes.get("purge / reset-all of a never-existing id related to an existing object's root", 0) + 1
             return {"op": rng.choice(["purge", "purge", "reset_all"]), "id": rng.choice(cands)}
+        m = self.macro(view, oid, paths)
+        if m is not None:
+            return m
         cps = clash_pairs(paths)
         if cps and rng.random() < 0.07:
             # two source trees in which one NAME is a file in the first and a directory in the second: merged
@@ -203,6 +208,51 @@ class HistoryRun:
             return {"op": "purge", "id": oid}
         return {"op": "new", "id": oid}
 
+    def fresh_content(self):
+        c = self.next_reserved
+        if c >= len(hist.CONTENTS):
+            return None
+        self.next_reserved += 1
+        return c
+
+    def macro(self, view, oid, paths):
+        """multi-step targeted shapes (first operation returned, the rest queued)"""
+        rng = self.rng
+        r = rng.random()
+        if r < 0.025 and oid in view["main"]:
+            # a committed FILE is replaced by a DIRECTORY of the same name in the staged version, next to a sibling
+            # whose name merely starts with that name; then a recursive reset of the name must restore the file
+            mpaths = sorted(absinv.head_state_map(view["main"][oid][1]))
+            files = [p for p in mpaths if p in paths]
+            if files:
+                p = rng.choice(files)
+                c1, c2 = self.fresh_content(), self.fresh_content()
+                if c2 is not None:
+                    self.shapes["file replaced by a directory of the same name + prefix sibling, then reset -r"] = \
+                        self.shapes.get("file replaced by a directory of the same name + prefix sibling, then reset -r", 0) + 1
+                    self.queue = [
+                        {"op": "rm", "id": oid, "paths": [p], "recursive": False},
+                        {"op": "cp_ext", "id": oid, "files": [["new.txt", c2]], "dst": p + "/new.txt", "recursive": False},
+                        {"op": "reset", "id": oid, "paths": [p], "recursive": True},
+                    ]
+                    return {"op": "cp_ext", "id": oid, "files": [["x.txt", c1]], "dst": p + "2/x.txt", "recursive": False}
+        elif r < 0.05:
+            # a file with never-seen content is staged, copied internally within the staged version, then one of the
+            # two paths is overwritten by an external copy: the other path must keep its bytes (also after commit)
+            c1, c2 = self.fresh_content(), self.fresh_content()
+            if c2 is not None:
+                a, b_ = "hl/orig-%d.txt" % c1, "hl/copy-%d.txt" % c1
+                over = rng.choice([a, b_])
+                self.shapes["new file copied inside the staged version, then one copy overwritten externally"] = \
+                    self.shapes.get("new file copied inside the staged version, then one copy overwritten externally", 0) + 1
+                self.queue = [
+                    {"op": "cp_int", "id": oid, "version": None, "src": [a], "dst": b_, "recursive": False},
+                    {"op": "cp_ext", "id": oid, "files": [[os.path.basename(over), c2]], "dst": over, "recursive": False},
+                    {"op": "commit", "id": oid},
+                ]
+                return {"op": "cp_ext", "id": oid, "files": [[os.path.basename(a), c1]], "dst": a, "recursive": False}
+        return None
+
     # ---- execution
     def staged_probe(self, oid):
         """staged view as the library reports it + bytes of every staged path"""
@@ -245,7 +295,12 @@ class HistoryRun:
     def run(self):
         for k in range(self.length):
             pre_view = self.view()
-            op = self.preamble[k] if k < len(self.preamble) else self.gen_op(pre_view)
+            if k < len(self.preamble):
+                op = self.preamble[k]
+            elif self.queue:
+                op = self.queue.pop(0)
+            else:
+                op = self.gen_op(pre_view)
             st = Step()
             st.k, st.op, st.pre = k, op, pre_view
             st.pre_main_snap = self.r.snap_main()
